@@ -91,27 +91,40 @@ TYPEDEF_RX = re.compile(r'typedef\s+((?:std::)?(?:map|vector|set|pair)\s*<[^;]+>
 
 
 def typedef_table(hdr, extra=()):
-    tab = {}
+    """name -> set of targets, and (class, name) -> target, for typedefs of std container instantiations in the headers"""
+    tab, qual = {}, {}
     for f in sorted(glob.glob(hdr + "/*.h")) + [x for x in extra if os.path.exists(x)]:
-        for m in TYPEDEF_RX.finditer(open(f, errors="replace").read()):
-            tab.setdefault(m.group(2), set()).add(re.sub(r'\s+', ' ', m.group(1)))
-    return tab
+        txt = open(f, errors="replace").read()
+        classes = [(m.start(), m.group(1)) for m in re.finditer(r'\bclass\s+(?:EXPCL_\w+\s+)?(\w+)\b[^;{]*\{', txt)]
+        for m in TYPEDEF_RX.finditer(txt):
+            tgt = re.sub(r'\s+', ' ', m.group(1))
+            tab.setdefault(m.group(2), set()).add(tgt)
+            cls = [c for pos, c in classes if pos < m.start()]
+            if cls:
+                qual[(cls[-1], m.group(2))] = tgt
+    return tab, qual
 
 
-def rule_r7(e, tab):
+def rule_r7(e, tabs):
     """R7: CBMC cannot use a typedef of a template instantiation as a scope (`TypeMap::iterator`):
     expand the typedef name textually to its target, taken from the class headers."""
+    tab, qual = tabs
     n = 0
+    suffix = r'\s*::(?=\s*(?:const_)?(?:reverse_)?iterator|\s*value_type|\s*size_type)'
+    def std(tgt):
+        return tgt if tgt.startswith("std::") else "std::" + tgt
+    # qualified uses first: Class::Name::iterator
+    for (cls, name), tgt in sorted(qual.items()):
+        rx = re.compile(r'(?<![\w:])' + cls + r'\s*::\s*' + name + suffix)
+        e.text, k = rx.subn(std(tgt) + "::", e.text)
+        n += k
     for name in sorted(tab):
-        rx = re.compile(r'(?<![\w:])(?:[A-Za-z_]\w*\s*::\s*)?' + name + r'\s*::(?=\s*(?:const_)?(?:reverse_)?iterator|\s*value_type|\s*size_type)')
+        rx = re.compile(r'(?<![\w:])' + name + suffix)
         if not rx.search(e.text):
             continue
         if len(tab[name]) != 1:
             raise X.ExtractionError("R7: typedef %s is ambiguous (%s)" % (name, sorted(tab[name])))
-        tgt = list(tab[name])[0]
-        if not tgt.startswith("std::"):
-            tgt = "std::" + tgt
-        e.text, k = rx.subn(tgt + "::", e.text)
+        e.text, k = rx.subn(std(list(tab[name])[0]) + "::", e.text)
         n += k
     if n:
         e.rewrites.append("R7 typedef-as-scope expanded x%d" % n)
